@@ -12,7 +12,7 @@ RULE = ("batches of 1..6 items mixing succeeding and failing operations, with/wi
         "refused when it is set on the object (a handler failing late, after it may have touched the session); patterns [fail X on o; succeed Y; read o] arise from the generator's "
         "bias to existing objects; non-trivial = a batch with >= 2 items containing both a success and a failure, or a "
         "rejected request; distinct = distinct (request, identity, outcome shape)")
-PROFILE = {"groups": 0.1, "missing_bid": 0.06, "restart": 0.02, "batch": True, "late_fail": 0.3, "revoke_date": 0.3,
+PROFILE = {"groups": 0.1, "missing_bid": 0.06, "restart": 0.02, "batch": True, "late_fail": 0.3, "revoke_date": 0.3, "header_extras": 0.1,
            "ops": None}
 MONITORS = [M.mon_c08, M.mon_c15]
 
